@@ -47,6 +47,10 @@ pub struct MultiSpec {
     /// none | baton
     pub threads: String,
     pub fuel: u64,
+    /// the shared side also re-uses ONE assembler context / output pair for every source, emptied
+    /// with their own clear() in between (the solo runs always use fresh ones)
+    #[serde(default)]
+    pub reuse_contexts: bool,
 }
 
 pub struct Parsers {
@@ -54,6 +58,8 @@ pub struct Parsers {
     pub data: DataParser,
     pub interp: Interpreter,
     pub printer: PrintParser,
+    /// when set: the one context / output pair every assembly on this side goes through
+    pub reuse: Option<Mutex<(PreprocessorContext, PreprocessorOutput)>>,
 }
 
 impl Parsers {
@@ -63,6 +69,30 @@ impl Parsers {
             data: DataParser::new(),
             interp: Interpreter::new(),
             printer: PrintParser::new(),
+            reuse: None,
+        }
+    }
+
+    /// assemble `text`; `f` sees the context and the output (fresh ones, or the re-used pair after clear())
+    pub fn assemble<R>(&self, text: &str, f: impl FnOnce(Result<(), String>, &mut PreprocessorContext, &mut PreprocessorOutput) -> R) -> R {
+        match &self.reuse {
+            Some(m) => {
+                let mut g = match m.lock() {
+                    Ok(g) => g,
+                    Err(p) => p.into_inner(),
+                };
+                let (ctx, out) = &mut *g;
+                ctx.clear();
+                out.clear();
+                let r = self.pre.parse(ctx, out, text).map_err(|e| format!("{}", e));
+                f(r, ctx, out)
+            }
+            None => {
+                let mut ctx = PreprocessorContext::default();
+                let mut out = PreprocessorOutput::default();
+                let r = self.pre.parse(&mut ctx, &mut out, text).map_err(|e| format!("{}", e));
+                f(r, &mut ctx, &mut out)
+            }
         }
     }
 }
@@ -152,29 +182,44 @@ impl Mach {
     fn setup(&mut self, p: &Parsers) {
         let re = regex::Regex::new(r";.*\n?").unwrap();
         let unc = re.replace_all(&self.source, "\n").to_string();
-        let mut ctx = PreprocessorContext::default();
-        let mut out = PreprocessorOutput::default();
-        if let Err(e) = p.pre.parse(&mut ctx, &mut out, &unc) {
-            self.trace.push((0, format!("assemble error {}", e), [0; 14]));
-            self.done = true;
-            return;
+        enum Prep {
+            Failed(String),
+            NoStart,
+            Ready(usize, Vec<String>, Vec<String>, InterpreterContext),
         }
-        let start = match ctx.label_map.get("start") {
-            Some(l) => match l.get_type() {
-                LabelType::CODE => l.map,
-                LabelType::DATA => {
-                    self.done = true;
-                    return;
-                }
-            },
-            None => {
+        let prep = p.assemble(&unc, |r, ctx, out| {
+            if let Err(e) = r {
+                return Prep::Failed(e);
+            }
+            let start = match ctx.label_map.get("start") {
+                Some(l) => match l.get_type() {
+                    LabelType::CODE => l.map,
+                    LabelType::DATA => return Prep::NoStart,
+                },
+                None => return Prep::NoStart,
+            };
+            let ictx = InterpreterContext {
+                fn_map: std::mem::take(&mut ctx.fn_map),
+                label_map: std::mem::take(&mut ctx.label_map),
+                call_stack: Vec::new(),
+            };
+            Prep::Ready(start, std::mem::take(&mut out.data), std::mem::take(&mut out.code), ictx)
+        });
+        let (start, data, mut code, ictx) = match prep {
+            Prep::Failed(e) => {
+                self.trace.push((0, format!("assemble error {}", e), [0; 14]));
                 self.done = true;
                 return;
             }
+            Prep::NoStart => {
+                self.done = true;
+                return;
+            }
+            Prep::Ready(a, b, c, d) => (a, b, c, d),
         };
         let mut vm = VM::new();
         let mut ctr = 0;
-        for d in out.data.iter() {
+        for d in data.iter() {
             if let Err(e) = p.data.parse(&mut vm, &mut ctr, d) {
                 self.trace.push((0, format!("data error {}", e), [0; 14]));
                 self.done = true;
@@ -182,13 +227,9 @@ impl Mach {
             }
         }
         vm.arch.ds = 0;
-        out.code.push("hlt".to_owned());
-        self.code = out.code;
-        self.ictx = Some(InterpreterContext {
-            fn_map: ctx.fn_map,
-            label_map: ctx.label_map,
-            call_stack: Vec::new(),
-        });
+        code.push("hlt".to_owned());
+        self.code = code;
+        self.ictx = Some(ictx);
         self.vm = Some(vm);
         self.idx = start;
     }
@@ -342,12 +383,10 @@ fn poison(p: &Parsers, text: &str) -> String {
         if let Some(pc) = prev {
             sim_io::install(pc);
         }
-        let mut ctx = PreprocessorContext::default();
-        let mut out = PreprocessorOutput::default();
-        let d = match p.pre.parse(&mut ctx, &mut out, text) {
+        let d = p.assemble(text, |r, _ctx, out| match r {
             Ok(_) => format!("ok {:?}", out),
             Err(e) => format!("err {}", e),
-        };
+        });
         format!("I[{}] D[{}] P[{}] A[{}] regs{:?} mem{:016x}", a, b, c, d, regs_of(&vm), fnv1a(&vm.mem[..]))
     }));
     match r {
@@ -411,7 +450,10 @@ pub fn run_multi(spec: &MultiSpec) -> MultiOutcome {
     let mut viols = Vec::new();
     let mut st = MultiStats::default();
     let solos: Vec<MachResult> = spec.machines.iter().map(|m| run_solo(m, spec.fuel)).collect();
-    let shared = Parsers::new();
+    let mut shared = Parsers::new();
+    if spec.reuse_contexts {
+        shared.reuse = Some(Mutex::new((PreprocessorContext::default(), PreprocessorOutput::default())));
+    }
     let mut machs: Vec<Mach> = spec.machines.iter().map(Mach::new).collect();
     let mut scratch: Vec<VM> = Vec::new();
     let n = machs.len();
@@ -515,7 +557,11 @@ pub fn run_multi_baton(spec: &MultiSpec) -> MultiOutcome {
     let mut viols = Vec::new();
     let mut st = MultiStats::default();
     let solos: Vec<MachResult> = spec.machines.iter().map(|m| run_solo(m, spec.fuel)).collect();
-    let shared = Arc::new(Parsers::new());
+    let mut shared0 = Parsers::new();
+    if spec.reuse_contexts {
+        shared0.reuse = Some(Mutex::new((PreprocessorContext::default(), PreprocessorOutput::default())));
+    }
+    let shared = Arc::new(shared0);
     let n = spec.machines.len();
     let baton = Arc::new(Baton { turn: Mutex::new((None, false)), cv: Condvar::new() });
     // per machine: (done, steps) as seen by the scheduler
